@@ -263,6 +263,145 @@ def c20_case(seed, model, rep):
         repo.done()
 
 
+def show_per_key(repo, keys):
+    """stored log of each key, read back through `log show` with filters (works for binary output)"""
+    got = {}
+    for (stream, t, c) in keys:
+        rc2, _, shown, _ = repo.mono("log", "show", "--" + stream, "--targets", t, "--commands", c, timeout=120)
+        m = storeobs.HEADER.match(shown)
+        got[(stream, t, c)] = shown[m.end():] if m else shown
+    return got
+
+
+def c08_volume_case(seed, model, rep):
+    """megabytes of poorly compressible output from every member of one group, all finishing close
+    together: the compressors still have a backlog when the last task is joined"""
+    rng = scen.Rng(seed)
+    group = ["app", "app2", "lib"]
+    plan, expect = {}, {}
+    for t in group:
+        blk_o = bytes(rng.below(256) for _ in range(8192)) * 4
+        blk_e = bytes(rng.below(256) for _ in range(4096)) * 2
+        no, ne = rng.range(120, 200), rng.range(60, 120)
+        plan["build|%s" % t] = {"repeat": [[no, 1, blk_o.hex()], [ne, 2, blk_e.hex()]]}
+        expect[("stdout", t, "build")] = blk_o * no
+        expect[("stderr", t, "build")] = blk_e * ne
+    repo = make_repo(plan)
+    case = {"seed": seed, "mode": "c08volume"}
+    try:
+        rc, j, out, err = repo.mono("run", "-c", "build", "-t", *group, "--deps", timeout=300)
+        rep.evaluations += 1
+        rep.count("volume_cases")
+        rep.count("volume_mb", sum(len(v) for v in expect.values()) // (1 << 20))
+        if rc != 0:
+            rep.oracle_fail({"kind": "run failed", "case": case, "rc": rc, "stderr": err[-300:]})
+            return
+        got = show_per_key(repo, expect.keys())
+        for k, want in expect.items():
+            if got[k] != want:
+                rep.oracle_fail({"kind": "stored log differs from the bytes written", "case": case, "key": list(k),
+                                 "written_bytes": len(want), "stored_bytes": len(got[k]),
+                                 "is_prefix": want.startswith(got[k])})
+                return
+        rep.nontrivial_case({"seed": seed, "mode": "volume"})
+    finally:
+        repo.done()
+
+
+def blocks_vs_stored(repo, tout, flt, case, rep):
+    """C20 judged against the stored logs themselves (whatever the run's outcome was)"""
+    blocks = parse_tail(tout)
+    if blocks is None:
+        rep.oracle_fail({"kind": "listener output is not header-introduced blocks", "case": case, "head": tout[:300].decode("utf-8", "replace")})
+        return False
+    per = {}
+    for k, b in blocks:
+        per[k] = per.get(k, b"") + b
+    rc2, _, shown, _ = repo.mono("log", "show", "--stdout", "--stderr", timeout=120)
+    stored = storeobs.parse_log_show(shown) if rc2 == 0 else {}
+    for k in per:
+        if not admitted(flt, k):
+            rep.oracle_fail({"kind": "block for a key the listener's filters do not admit", "case": case, "key": list(k)})
+            return False
+    for k, want in stored.items():
+        if admitted(flt, k) and want.endswith(b"\n") and per.get(k, b"") != want:
+            g = per.get(k, b"")
+            rep.oracle_fail({"kind": "blocks of a key do not reassemble to its stored log", "case": case, "key": list(k),
+                             "stored_bytes": len(want), "streamed_bytes": len(g), "streamed_is_prefix": want.startswith(g),
+                             "got_tail": g[-120:].decode("utf-8", "replace"), "want_tail": want[-120:].decode("utf-8", "replace")})
+            return False
+    return True
+
+
+def c20_cancel_case(seed, model, rep):
+    """a member of the group fails while its siblings are printing: they are cancelled with lines read
+    since the last flush tick still unflushed; what was stored for them must also have been streamed"""
+    rng = scen.Rng(seed)
+    plan = {}
+    for t in ("app", "app2"):
+        gap = rng.pick([40, 70, 110])
+        plan["build|%s" % t] = {"steps": [[gap, rng.pick([1, 1, 2]), ("%s line %d\n" % (t, i)).encode().hex()] for i in range(40)]}
+    plan["build|lib"] = {"sleep_ms": rng.pick([250, 400, 620, 780, 1150]), "exit": 3}
+    flt = {"stdout": True, "stderr": True, "targets": [], "commands": []}
+    repo = make_repo(plan)
+    case = {"seed": seed, "mode": "c20cancel", "fail_after_ms": plan["build|lib"]["sleep_ms"]}
+    try:
+        tail = start_tail(repo, flt)
+        rc, j, out, err = repo.mono("run", "-c", "build", "-t", "app", "app2", "lib", "--deps", timeout=120)
+        tail.last_growth = time.time()
+        tout = drain_tail(tail)
+        scen.reap_helpers(repo)
+        rep.evaluations += 1
+        rep.count("cancel_cases")
+        if rc != 1:
+            rep.count("cancel_case_unexpected_rc")
+            return
+        if blocks_vs_stored(repo, tout, flt, case, rep):
+            rep.nontrivial_case({"seed": seed, "mode": "cancel"})
+    finally:
+        repo.done()
+
+
+def c20_stall_case(seed, model, rep):
+    """the listener stops reading for a while (SIGSTOP) while the tasks write more than the socket
+    buffers hold: the writers wait, nothing is dropped or cut"""
+    rng = scen.Rng(seed)
+    plan = {}
+    for t in ("app", "app2", "lib"):
+        line = ("%s %s\n" % (t, "x" * rng.range(60, 200))).encode()
+        plan["build|%s" % t] = {"steps": [[0, 1, ("%s first\n" % t).encode().hex()]], "repeat": [[rng.range(12000, 18000), 1, line.hex()]]}
+    flt = {"stdout": True, "stderr": True, "targets": [], "commands": []}
+    repo = make_repo(plan)
+    stall = rng.pick([0.9, 1.4, 2.0])
+    case = {"seed": seed, "mode": "c20stall", "stall_s": stall}
+    try:
+        tail = start_tail(repo, flt)
+        p = repo.popen(["run", "-c", "build", "-t", "app", "app2", "lib", "--deps"])
+        t0 = time.time()
+        while time.time() - t0 < 5 and len(tail.collected) < 200:
+            time.sleep(0.01)
+        os.kill(tail.pid, signal.SIGSTOP)
+        time.sleep(stall)
+        os.kill(tail.pid, signal.SIGCONT)
+        try:
+            out, err = p.communicate(timeout=300)
+        except subprocess.TimeoutExpired:
+            scen.kill_tree(p)
+            rep.oracle_fail({"kind": "run did not finish after the listener resumed", "case": case})
+            return
+        tail.last_growth = time.time()
+        tout = drain_tail(tail, quiet=1.5, limit=120.0)
+        rep.evaluations += 1
+        rep.count("stall_cases")
+        if p.returncode != 0:
+            rep.count("stall_case_unexpected_rc")
+            return
+        if blocks_vs_stored(repo, tout, flt, case, rep):
+            rep.nontrivial_case({"seed": seed, "mode": "stall"})
+    finally:
+        repo.done()
+
+
 def c15_case(seed, model, rep):
     rng = scen.Rng(seed)
     plan, expect = gen_plan(rng, realtime=rng.chance(1, 3))
@@ -336,8 +475,23 @@ def main():
     fn = {"C08": c08_case, "C15": c15_case, "C20": c20_case}[prop]
     n = {"C08": (40, 4), "C15": (60, 8), "C20": (150, 16)}[prop][0 if args["tier"] == "thorough" else 1] * args["budget"]
     seeds += [rng.next() for _ in range(n)]
-    with ThreadPoolExecutor(max_workers=8) as ex:
-        list(ex.map(lambda s: fn(s, model, rep), seeds))
+    scen.run_cases(lambda s: fn(s, model, rep), seeds, rep, 8)
+    thorough = args["tier"] == "thorough"
+    extra = []
+    special = {"c08volume": c08_volume_case, "c20cancel": c20_cancel_case, "c20stall": c20_stall_case}
+    for c in scen.load_corpus(args["corpus"], prop):
+        cc = c.get("case", c)
+        if isinstance(cc, dict) and cc.get("mode") in special and "seed" in cc:
+            extra.append((special[cc["mode"]], cc["seed"]))
+    if args["budget"] == 0:
+        scen.run_cases(lambda e: e[0](e[1], model, rep), extra, rep, 3)
+    elif prop == "C08":
+        extra += [(c08_volume_case, rng.next()) for _ in range((6 if thorough else 1) * max(1, args["budget"]))]
+    elif prop == "C20":
+        extra += [(c20_cancel_case, rng.next()) for _ in range((20 if thorough else 3) * max(1, args["budget"]))]
+        extra += [(c20_stall_case, rng.next()) for _ in range((5 if thorough else 1) * max(1, args["budget"]))]
+    if args["budget"] > 0:
+        scen.run_cases(lambda e: e[0](e[1], model, rep), extra, rep, 3)
     j = rep.to_json()
     # merge with the in-process report
     merged = dict(base)
